@@ -364,6 +364,57 @@ def eval_order(R, ctx, rid):
              "operand kinds `%s` (v=value, c=call, p=parenthesised call): built node evaluates %s instead of e0..e%d in order %s: an expression can be placed before an "
              "earlier-evaluated one" % (bad[0][0], bad[0][1] if bad[0][1] is not None else "<not established>", len(bad[0][0]) - 1, bad[0][2] or ""))
         R.require(rid, "floor:%s" % short, n >= 100, ctx.where(fn), "%d sequences evaluated" % n)
+        if short != "expressions_as_expression":
+            continue
+        # an expression short-circuits: whatever the kept calls return, each of them must still run, once and in order
+        def run_expr(v, truth, trace):
+            while isinstance(v, Enum) and v.adt == peval.OPTION and v.variant == "Some":
+                v = v.fields["0"]
+            if isinstance(v, Struct) and "expression" in v.fields:
+                return run_expr(v.fields["expression"], truth, trace)
+            if not isinstance(v, Enum):
+                raise ValueError("not an expression: %r" % (v,))
+            if v.variant == "Call":
+                t = v.fields["0"].fields.get("#tag")
+                trace.append(t)
+                return truth[t]
+            if v.variant in ("Nil", "False"):
+                return False
+            if v.variant in ("True", "Number", "String", "Table", "Function"):
+                return True
+            if v.variant in ("Parenthese", "TypeCast"):
+                return run_expr(v.fields["0"], truth, trace)
+            if v.variant == "Binary":
+                b = v.fields["0"]
+                op = b.fields["operator"].variant
+                l = run_expr(b.fields["left"], truth, trace)
+                if op == "And":
+                    return run_expr(b.fields["right"], truth, trace) if l else False
+                if op == "Or":
+                    return True if l else run_expr(b.fields["right"], truth, trace)
+            raise ValueError("expression variant %s" % v.variant)
+        bad, n = [], 0
+        for length in range(0, 5):
+            for combo in itertools.product("cp", repeat=length):
+                tags = ["e%d" % i for i in range(length)]
+                pe = peval.PEval(lib, ctx.an)
+                try:
+                    v = pe.call_fn(fn, [[kinds[k](t) for k, t in zip(combo, tags)]])
+                except peval.OutOfFuel:
+                    v = UNKNOWN
+                for outcome in itertools.product((True, False), repeat=length):
+                    n += 1
+                    trace = []
+                    try:
+                        run_expr(v, dict(zip(tags, outcome)), trace)
+                    except (ValueError, KeyError, AttributeError) as x:
+                        trace = "<not established: %s %s>" % (x, pe.unknown_reasons[:1])
+                    if trace != tags and len(bad) < 3:
+                        bad.append(("".join(combo), ["truthy" if o else "falsy" for o in outcome], trace))
+        R.ob(rid, "%s|short-circuit" % short, not bad, ctx.where(fn),
+             "every kept call runs once and in order whatever the calls return (%d operand sequences x outcomes)" % n if not bad else
+             "operands `%s` returning %s: the expression built runs %s: a falsy / truthy result of one kept call skips a later one" % bad[0])
+        R.require(rid, "floor:%s|short-circuit" % short, n >= 300, ctx.where(fn), "%d cases" % n)
 
 
 def run(R, ctx):
